@@ -1,8 +1,9 @@
 #!/bin/sh
 # offline setup: make sure hypothesis is importable in /venv (it normally already is)
+HERE=$(cd "$(dirname "$0")" && pwd)
 /venv/bin/python -c "import hypothesis" 2>/dev/null || \
   /venv/bin/pip install -q --no-index --find-links /opt/veriftools/wheels hypothesis
+# optional second engine (thorough tier): atheris into <verif>/.deps
+PYTHONPATH="$HERE/.deps" /venv/bin/python -c "import atheris" 2>/dev/null || \
+  /venv/bin/pip install -q --no-index --find-links /opt/veriftools/wheels --target "$HERE/.deps" atheris 2>/dev/null || true
 /venv/bin/python -c "import hypothesis, mofun, numpy, scipy; print('setup ok: hypothesis', hypothesis.__version__)"
-# optional second engine (thorough tier): atheris into /verif/.deps
-PYTHONPATH=/verif/.deps /venv/bin/python -c "import atheris" 2>/dev/null || \
-  /venv/bin/pip install -q --no-index --find-links /opt/veriftools/wheels --target /verif/.deps atheris 2>/dev/null || true
